@@ -3,7 +3,7 @@
 From Coq Require Import List ZArith NArith Bool.
 From Coq.Strings Require Import Byte.
 Import ListNotations.
-From SV Require Import Text C01_Lines G_codes G_c01_io C01_Model C01_Detect C01_Lemmas C01_Formats C01_Dec C01_Stockholm C01_Domain C01_Gff C01_Main C01_IdPattern C01_Reader C01_Sniff C01_Layout C01_Json.
+From SV Require Import Text C01_Lines G_codes G_c01_io C01_Model C01_Detect C01_Lemmas C01_Formats C01_Dec C01_Stockholm C01_Domain C01_Gff C01_Main C01_IdPattern C01_Reader C01_Sniff C01_Layout C01_Json C01_Append C01_Init.
 
 (* the FASTA id matcher of the model was written for exactly the pattern text found in /repo *)
 Theorem C01_idpattern_pinned : FASTA_IDPATTERN_CANON = IDPATTERN_PINNED.
@@ -295,6 +295,69 @@ Theorem C01_byname_roundtrip : forall f e p stem b, In e (ext_list f) -> basenam
 Proof. exact byname_roundtrip_full. Qed.
 Print Assumptions C01_byname_roundtrip.
 
+(* ---- mode 'a' of write() for every format ---- *)
+(* which plugin function write() calls: append_<fmt> per sequence exists only for FASTA; the other formats fall through to
+   write_<fmt> on the handle opened for appending (and mode 'w' of FASTA falls through to append_fasta) *)
+Theorem C01_append_dispatch : forall f b,
+  write_dispatch f true false b = Ok (if has_append f then append_each f b else write_fmt f b)
+  /\ write_dispatch f false true b = Ok (if has_write f then write_fmt f b else append_each f b)
+  /\ (has_append f = true <-> f = Fasta) /\ (has_write f = false <-> f = Fasta).
+Proof. exact append_dispatch. Qed.
+Print Assumptions C01_append_dispatch.
+
+Theorem C01_append_file : forall f old b, exists c, write_w f b = Ok c /\ write_file f true old b = Ok (content_app old c).
+Proof. exact append_file. Qed.
+Print Assumptions C01_append_file.
+
+(* "appending equals writing the concatenated basket" is a FASTA fact: a Stockholm file that was appended to reads back as
+   the FIRST alignment only (the reader stops at the first "//"), as write()'s documentation warns *)
+Theorem C01_stk_append_reads_first : forall b1 b2, wf_stk_basket b1 = true -> forallb wfb_stk b2 = true ->
+  exists c, bind (write_w Stockholm b1) (fun c1 => write_file Stockholm true c1 b2) = Ok c
+            /\ read_content Stockholm c = Ok (map (norm_plain Stockholm) b1).
+Proof. exact stk_append_reads_first. Qed.
+Print Assumptions C01_stk_append_reads_first.
+
+(* ---- BioSeq(data, id, meta, type), seq.py:213-243 ---- *)
+Theorem C01_bioseq_init_plain : forall s id, bioseq_init (DStr s) id None None = Ok (bioseq s id).
+Proof. exact bioseq_init_plain. Qed.
+Print Assumptions C01_bioseq_init_plain.
+
+(* data is the upper-cased text; the type is the given one, or 'nt' iff every UPPER-CASED letter is a nucleotide code;
+   any other type value is an AssertionError *)
+Theorem C01_bioseq_init_data_type : forall d id meta ty,
+  match ty with
+  | None => exists i, bioseq_init d id meta ty = Ok i /\ b_data i = upper (src_data d) /\ b_nt i = forallb is_code (upper (src_data d))
+  | Some t =>
+      if str_eqb t (bs "nt"%bs) || str_eqb t (bs "aa"%bs)
+      then exists i, bioseq_init d id meta ty = Ok i /\ b_data i = upper (src_data d) /\ b_nt i = str_eqb t (bs "nt"%bs)
+      else bioseq_init d id meta ty = Err E_Assertion
+  end.
+Proof. exact bioseq_init_data_type. Qed.
+Print Assumptions C01_bioseq_init_data_type.
+
+(* id precedence ("if id or 'id' not in self.meta") *)
+Theorem C01_bioseq_init_id : forall d id meta ty i, bioseq_init d id meta ty = Ok i ->
+  (truthy id = true -> b_id i = id)
+  /\ (truthy id = false -> forall b0, d = DSeq b0 -> b_id i = b_id b0)
+  /\ (truthy id = false -> forall s m, d = DStr s -> meta = Some (Some m) -> b_id i = m)
+  /\ (truthy id = false -> forall s, d = DStr s -> (meta = None \/ meta = Some None) -> b_id i = id).
+Proof. exact bioseq_init_id. Qed.
+Print Assumptions C01_bioseq_init_id.
+
+Theorem C01_bioseq_init_copy : forall b, wfb_common b = true -> bioseq_init (DSeq b) (Some []) None None = Ok b.
+Proof. exact bioseq_init_copy. Qed.
+Print Assumptions C01_bioseq_init_copy.
+
+Theorem C01_bioseq_init_copy_reinfers : exists b, bioseq_init (DStr (bs "ACGT"%bs)) (Some (bs "x"%bs)) None (Some (bs "aa"%bs)) = Ok b
+  /\ b_nt b = false /\ exists c, bioseq_init (DSeq b) (Some []) None None = Ok c /\ b_nt c = true /\ b_id c = Some (bs "x"%bs).
+Proof. exact bioseq_init_copy_reinfers. Qed.
+Print Assumptions C01_bioseq_init_copy_reinfers.
+
+Theorem C01_bioseq_init_hook : forall d i nt,
+  bioseq_init (DStr d) (Some []) (Some (Some i)) (Some (type_name nt)) = Ok (bioseq_typed d i nt None).
+Proof. exact bioseq_init_hook. Qed.
+Print Assumptions C01_bioseq_init_hook.
+
 (* ---- comment / blank lines are removable ---- *)
 (* deleting every ";" line of a FASTA file changes nothing of what is read ... *)
 Theorem C01_fasta_comments_removable : forall ls st, iter_fasta st (filter not_comment ls) = iter_fasta st ls.
@@ -378,3 +441,9 @@ Example C01_witness_json :
   /\ jload (bs "{""a"": 1}"%bs) = None
   /\ Bstr (jstr ([x09] ++ bs "a""\"%bs ++ [x7f])) = """\ta\""\\\u007f"""%bs.
 Proof. exact (conj eq_refl (conj eq_refl eq_refl)). Qed.
+
+Example C01_witness_append :
+  bind (bind (write_w Sjson (build [(Some (bs "a"%bs), bs "AC"%bs, None)])) (fun c1 => write_file Sjson true c1 (build [(Some (bs "b"%bs), bs "GU"%bs, None)])))
+       (fun c => read_bytes Sjson (content_text c)) = Err E_Value
+  /\ wf_stk_basket (build [(Some (bs "a"%bs), bs "AC"%bs, None)]) = true.
+Proof. exact (conj eq_refl eq_refl). Qed.
